@@ -11,14 +11,14 @@ def run(tier, seed):
         deductive(rep, "C19", CT.FUNCS, "contracts.typo")
     except ImportError:
         pass
-    try:
-        from .. import reads
-        reads.add_order_obligations(rep, "C19")
-    except ImportError:
-        pass
+    from .. import reads, vocab
+    reads.add_order_obligations(rep, "C19")
+    vocab.add_smartquotes_obligations(rep, "C19")
     gen_universe(rep, "vf.oracles2:c19_typographer", "vf.oracles2:gen_c19", tier, "rules_core.replacements / smartquotes", "typographer on/off: same token shape; non-text tokens and autolink text identical; smartquotes substitutes only straight quotes in place",
                  ["commonmark", "js-default"], "inline documents over 26 fragments (quotes, autolinks, escapes, entities, dashes ...) x 5 quotes settings (strings and lists of 0-3 character strings) x {replacements, smartquotes, both}", "inline docs x quotes settings")
-    rep.explanation = ("Mixed. Deductive (when contracts.typo is present): GUARD obligations - every token.content store in replace_scoped/replace_rare is dominated by type == 'text' and not inside an autolink. "
+    rep.explanation = ("Mixed. Deductive: replace_scoped/replace_rare are verified by pyvc - GUARD at every token.content store (type == 'text' and no auto link open, with the counter invariant inside_autolink == -AutoOpen(prefix)), "
+                       "and the postcondition that only content of text tokens outside autolinks changes (types, levels, nesting, list length untouched). smartquotes.process_inlines: dominance GUARDs - every content store and every stack push lies past "
+                       "the 'text token outside an autolink' test, no other token field or the list is written. ORDER: text_join follows the typographic rules in the core registry, so escapes/entities are still text_special (not text) when they run. "
                        "Bounded: shape identity and locality of the substitutions on the real parse.")
     rep.trusted_base = STD_TRUST
     rep.assumptions = []
